@@ -30,6 +30,11 @@ type SeqCheck struct {
 	GenQuick    SeqModel
 	GenThorough SeqModel
 	SampleQuick int // states sampled in the quick tier (0 = all)
+	// E5: crafted initial stores x alphabet
+	CraftQuick    SeqModel
+	CraftThorough SeqModel
+	Craft2Quick    SeqModel // a second crafted family (legacy stores)
+	Craft2Thorough SeqModel
 	// E2
 	Sim            SeqModel
 	SimNumQuick    int
@@ -102,6 +107,37 @@ func (c *SeqCheck) Run(e *Env) (*Outcome, *Evidence, error) {
 		cov["e1"] = map[string]any{"model": gen.Name, "bounds": gen.bounds(), "asis_states": total, "states_driven": len(states),
 			"steps": len(o), "exhaustive": len(states) == total, "wall_s": ds.Wall,
 			"asis_generated": g.Generated}
+	}
+
+	// 2b. crafted stores
+	for ci, pair := range [][2]SeqModel{{c.CraftQuick, c.CraftThorough}, {c.Craft2Quick, c.Craft2Thorough}} {
+		craft := pair[0]
+		if thorough && pair[1].Name != "" {
+			craft = pair[1]
+		}
+		if craft.Name == "" {
+			continue
+		}
+		tag := fmt.Sprintf("e5%c", 'a'+ci)
+		g, err := e.runTLC(tag, "MC_Seq", craft.cfg(tlaSet(loadAsIsDev()), "roots", nil, nil), 8, 30*time.Minute,
+			"-seed", strconv.FormatInt(e.Seed, 10))
+		if err != nil {
+			return nil, nil, err
+		}
+		stores, err := parseEmitted(g.Lines)
+		if err != nil {
+			return nil, nil, err
+		}
+		if len(stores) == 0 {
+			return nil, nil, fatalf("crafted-store generation produced nothing:\n%s", tail(g.Out, 30))
+		}
+		o, ds, err := e.driveStates(tag, stores, false, 16)
+		if err != nil {
+			return nil, nil, err
+		}
+		obs = append(obs, o...)
+		histories += ds.Histories
+		cov[tag] = map[string]any{"model": craft.Name, "bounds": craft.bounds(), "crafted_stores": len(stores), "steps": len(o), "wall_s": ds.Wall}
 	}
 
 	// 3. simulation walks
